@@ -25,6 +25,7 @@ class Knobs:
         self.catch_abrupt = True      # throw/return/break inside catch bodies
         self.zero_div = True
         self.closure_bias = 0.0       # extra probability of closure declarations / calls per statement
+        self.deep_rec = 0             # >0: add a recursive method `fdeep` and call it with depths up to this
         self.d14_shapes = False       # abrupt exits from catch bodies of a `do` that has a `finally`
         self.__dict__.update(kw)
 
@@ -137,6 +138,12 @@ class Gen:
             if os_:
                 self.features.add("nilco")
                 return f"(nilco (var {self.pick(os_)}) {self.int_expr(sc, d - 1, ctx)})"
+        if self.k.deep_rec and c < 0.82 and not ctx.get("pure") and ctx.get("rank", 0) > -1:
+            depth = self.pick([3, 17, self.k.deep_rec // 2, self.k.deep_rec])
+            self.cost["fdeep"] = depth
+            if self.charge(ctx, "fdeep"):
+                self.features.add("deep-recursion")
+                return f"(calld fdeep (int {depth}))"
         if c < 0.9 and not ctx.get("pure"):
             call = self.call_int(sc, d, ctx)
             if call:
@@ -439,6 +446,9 @@ class Gen:
             self.cost[name] = 1 + ctx["acc"][0]
             plist = " ".join(f"({p} {t})" for p, t in ps)
             texts.append(f"(def {name} ({plist}) {ret} {body})")
+        if self.k.deep_rec:
+            texts.append("(def fdeep ((n int)) int (if (bin le (var n) (int 0)) ((ret (int 0))) ()) "
+                         "(expr (bin add (int 1) (calld fdeep (bin sub (var n) (int 1))))))")
         r.shuffle(texts)
         sc = Scope(None, boundary=True)
         ctx = {"loops": [], "in_fn": False, "ret": None, "rank": 10 ** 6, "in_finally": False, "acc": [0], "mult": 1}
